@@ -256,6 +256,15 @@ func c11(ctx *Ctx) {
 	// show in the other list, nor in a plain reference to the definition
 	shared, sharedDocs := c11Shared(ctx.Level)
 	runBehaviour(ctx, behaviour{Name: "shared", Cases: shared, Devs: c11Devs, Values: true,
+		// a keyword the definition states with the value zero is overwritten *inside the definition* by the merge (the merge library takes zero
+		// for "not set"; the definition's own, already generated validator reads the same number): even the plain reference z enforces the
+		// other member's bound. Same shared-object mechanism as KF-C11-4, which the model carries for later composites only
+		KnownMismatch: func(sc *SCase, d *refmodel.Doc, o *drv.Obs) string {
+			if sc.Axes["leaf"] == "minimum-over-zero" && strings.Contains(o.Err, "field p: must be >= 5") {
+				return "ALLOF_MERGE_MUTATES_SHARED_DEFINITION"
+			}
+			return ""
+		},
 		DocGen: func(sc *SCase, m *refmodel.Model) []refmodel.Doc { return sharedDocs[sc.ID] }})
 	// an object schema with its own properties / required list next to the composite: everything must hold together
 	var own []SCase
@@ -469,6 +478,8 @@ func c11Shared(level int) ([]SCase, map[string][]refmodel.Doc) {
 		{"maxLength", J{"type": "string"}, J{"type": "string", "maxLength": 3}, "ab", "abcd", n("1")},
 		{"minimum", J{"type": "integer"}, J{"type": "integer", "minimum": 5}, n("7"), n("2"), "x"},
 		{"pattern", J{"type": "string", "minLength": 1}, J{"type": "string", "pattern": "^a"}, "ab", "b", true},
+		// the definition states the keyword itself, with the value zero (which the merge library takes for "not set")
+		{"minimum-over-zero", J{"type": "integer", "minimum": 0, "maximum": 100}, J{"type": "integer", "minimum": 5}, n("7"), n("2"), "x"},
 	}
 	var out []SCase
 	docs := map[string][]refmodel.Doc{}
@@ -476,7 +487,7 @@ func c11Shared(level int) ([]SCase, map[string][]refmodel.Doc) {
 		for _, comp := range []string{"allOf", "anyOf"} {
 			for _, constrainer := range []string{"x", "y"} {
 				for _, refFirst := range []bool{true, false} {
-					if level == 0 && (k.name == "pattern" || (comp == "anyOf" && !refFirst)) {
+					if level == 0 && (k.name == "pattern" || (comp == "anyOf" && !refFirst) || (k.name == "minimum-over-zero" && comp == "anyOf")) {
 						continue
 					}
 					base := J{"type": "object", "properties": J{"p": space.Clone(k.base), "k": J{"type": "boolean"}}}
